@@ -157,6 +157,8 @@ C13_OnlyLastGrows == (IsStep /\ cur.norepack) => OnlyLastPackGrows(O0, O)
 
 (* ---- C18 (descriptor census after each call; the harness counts /proc/self/fd) ---- *)
 C18_NoFdLeak == IsStep => cur.fds = 0
+(* after the history's handles are closed the process holds no descriptor inside the folder *)
+C18_ClosedNoFds == cur.closedfds = 0
 
 (* ---- acceptance: every line of every trace is consumed (the monitor never blocks) ---- *)
 Consumed == TRUE
